@@ -1,29 +1,24 @@
 #!/venv/bin/python
-"""Apply every behaviour-preserving refactoring under /verif/twins/*/patch.diff to /repo in turn (always reverted), run all quick
+"""Apply every behaviour-preserving refactoring under /verif/twins/*/patch.diff to a scratch copy of /repo (tools/_parallel.py), run all quick
 checks; a VIOLATION is a false alarm, an ANALYSIS-ERROR an unrecognised idiom.  Writes twins/<id>/meta.json."""
 import json, os, subprocess, sys, glob, re
 V = '/verif'
 os.chdir(V)
-assert subprocess.run(['git', '-C', '/repo', 'diff', '--quiet']).returncode == 0, '/repo not clean'
 props = sorted(json.load(open(V + '/claims.json')))
 only = sys.argv[1:] 
 rows = []
+sys.path.insert(0, V + '/tools')
+from _parallel import run_all
+todo = []
 for patch in sorted(glob.glob(V + '/twins/*/patch.diff')):
-    d = os.path.dirname(patch); tid = os.path.basename(d)
+    tid = os.path.basename(os.path.dirname(patch))
     if only and not any(tid.startswith(o) for o in only):
         continue
+    todo.append(patch)
+for patch, (viol, errs) in zip(todo, run_all(todo)):
+    d = os.path.dirname(patch); tid = os.path.basename(d)
     meta = json.load(open(d + '/meta.json')) if os.path.exists(d + '/meta.json') else {'id': tid}
-    viol, errs = [], []
-    try:
-        subprocess.check_call(['git', '-C', '/repo', 'apply', patch])
-        out = subprocess.run([V + '/check', 'all', '--tier', 'quick'], capture_output=True, text=True)
-        for line in out.stdout.splitlines():
-            if re.match(r'^(\S+?):(\d+): \[(C\d+)/', line):
-                viol.append(line[:230])
-            if line.startswith('ANALYSIS-ERROR'):
-                errs.append(line[:230])
-    finally:
-        subprocess.check_call(['git', '-C', '/repo', 'checkout', '--', '.'])
+    viol = [v[:230] for v in viol]
     meta['false_alarms'] = viol
     meta['analysis_errors'] = errs
     json.dump(meta, open(d + '/meta.json', 'w'), indent=1)
